@@ -349,13 +349,13 @@ def run_parent(args):
         print('  monitors: ' + ', '.join('%s=%d' % kv for kv in shown[:40]))
     for ln in lines:
         print(ln)
+    for r in inconclusive:
+        print('INCONCLUSIVE property=%s reason=%s' % (pid, r.replace('\n', ' | ')[:1500]))
     if viol_lines:
         for ln in viol_lines:
             print(ln)
         return 1
     if inconclusive:
-        for r in inconclusive:
-            print('INCONCLUSIVE property=%s reason=%s' % (pid, r.replace('\n', ' | ')[:1500]))
         return 2
     print('HELD property=%s on everything explored' % pid)
     return 0
